@@ -44,6 +44,9 @@ GROUP: Dict[str, str] = {
     "LinkTrekker_order_links_by_frameworks": "Proofs/SrcTieTrekP.v",
     "LinkTrekker_get_ordered_data": "Proofs/SrcTieTrekP.v",
     "LinkTrekker_order_ordered_ids_by_relation": "Proofs/SrcTieReorderP.v",
+    # round 2: options
+    **{t: "Proofs/SrcTieOptP.v" for t in ("Options_get", "Options_items", "OptionsValidator_validate_can_add_to_group",
+                                          "Options_add_to_group", "Options_add", "Features_merge_options")},
 }
 # lemma -> target, to name the first lemma coqc stopped at
 LEMMA_TARGET = {
@@ -79,6 +82,11 @@ LEMMA_TARGET = {
     **{l: "LinkTrekker_order_ordered_ids_by_relation" for l in (
         "zpm_mem", "zpm_len", "zpm_getitem", "zpm_set", "reorder_loop2_src", "reorder_loop2_latest", "reorder_loop3_src",
         "reorder_loop1_src", "reorder_loop4_src", "zpm_keys", "order_ordered_ids_by_relation_src")},
+    "options_get_src": "Options_get", "options_items_src": "Options_items",
+    "validate_can_add_to_group_src": "OptionsValidator_validate_can_add_to_group",
+    "options_add_to_group_src": "Options_add_to_group", "options_add_src": "Options_add",
+    **{l: "Features_merge_options" for l in ("kmem_union1", "merge_loop2_src", "merge_loop1_src", "merge_conflict_ext",
+                                             "merge_options_src", "merge_options_model")},
 }
 
 TRUSTED = [
@@ -343,7 +351,81 @@ def _space(target: str) -> Dict[str, Any]:
                 "defs": OB + "Definition chk (c : string * option bool) := ob (snd c) (has_dunder (list_ascii_of_string (fst c)))."}
     if py2coq.TARGET_BY_NAME[target].gen == "SrcPlan":
         return _space_plan(target)
+    if py2coq.TARGET_BY_NAME[target].gen == "SrcOpt":
+        return _space_opt(target)
     raise KeyError(target)
+
+
+# ---------------------------------------------------------------------------------------------------------------------
+# the option targets (round 2): small exhaustive spaces of Options objects; values and states are written and observed with
+# the printers of harness/c15.py and judged by its checker chk_ops over Model/Options.v (o_init, o_step, o_trace)
+# ---------------------------------------------------------------------------------------------------------------------
+def _space_opt(target: str) -> Dict[str, Any]:
+    from harness import c15
+    CH = ["K", "feature_chainer_parser_key"]
+
+    def opts(*pairs: Any) -> List[List[Any]]:
+        return [[k, v] for k, v in pairs if v != "absent"]
+    if target == "Features_merge_options":
+        parents = [{"g": opts(("a", a), ("b", b), (CH, ch)), "c": opts(("c", c)), "p": []}
+                   for a in ("absent", 1, 2) for b in ("absent", 1) for ch in ("absent", ["L", ["a"]], "a", 5, ["L", []])
+                   for c in ("absent", 1)]
+        children = [{"g": opts(("a", a), ("b", b), (CH, ch)), "c": opts(("c", c)), "p": p}
+                    for a in ("absent", 1, 2, True) for b in ("absent", 2) for ch in ("absent", ["L", ["a"]], ["L", ["b"]])
+                    for c, p in (("absent", []), (2, []), (2, ["c"]))]
+        cases = [{"init": pa, "ops": [{"op": "merge", "other": ch}]} for pa in parents for ch in children]
+    elif target in ("Options_add", "Options_add_to_group", "OptionsValidator_validate_can_add_to_group"):
+        op = "add" if target == "Options_add" else "add_group"
+        inits = [{"g": opts(("a", a), ("b", b)), "c": opts(("c", c)), "p": []}
+                 for a in ("absent", 1, 2, ["L", [1]]) for b in ("absent", True) for c in ("absent", 1)]
+        cases = [{"init": i, "ops": [{"op": op, "k": k, "v": v}]} for i in inits for k in ("a", "b", "c", 1)
+                 for v in (1, 2, True, ["L", [1]], None)]
+    elif target in ("Options_get", "Options_items"):
+        inits = [{"g": opts(("a", a), (1, b)), "c": opts(("c", c), (True, d) if b == "absent" else ("x", "absent")), "p": []}
+                 for a in ("absent", 1, None) for b in ("absent", 2) for c in ("absent", 3) for d in ("absent", 4)]
+        keys = ["a", "c", 1, True, "zz", None]
+        if target == "Options_get":
+            ty = "(ini_t * pykey) * option pyval"
+            return {"inputs": [{"init": i, "key": k} for i in inits for k in keys],
+                    "real": lambda i: c15.val_term(c15.build_options(i["init"]).get(c15.to_py(i["key"]))),
+                    "term": lambda i, o: (f"(({c15.init_term(i['init'])}, {c15.key_term(c15.to_py(i['key']))}), "
+                                          + ("None" if o.startswith("exc:") else f"Some {o}") + ")"),
+                    "type": ty, "req": c15.REQ,
+                    "defs": c15.EXTRA_OPS + f"Definition chk (c : {ty}) := match snd c with Some v => "
+                            "val_same (o_get (snd (fst c)) (mk_other (fst (fst c)))) v | None => false end."}
+        ty = "ini_t * option (list (pykey * pyval))"
+        return {"inputs": [{"init": i} for i in inits],
+                "real": lambda i: c15.pairs_term(c15.build_options(i["init"]).items()),
+                "term": lambda i, o: f"({c15.init_term(i['init'])}, " + ("None" if o.startswith("exc:") else f"Some {o}") + ")",
+                "type": ty, "req": c15.REQ,
+                "defs": c15.EXTRA_OPS + f"Definition chk (c : {ty}) := match snd c with Some l => "
+                        "dict_same (o_items (mk_other (fst c))) l | None => false end."}
+    else:
+        raise KeyError(target)
+    if target == "OptionsValidator_validate_can_add_to_group":
+        from mloda.core.abstract_plugins.components.validators.options_validator import OptionsValidator
+
+        def real_val(i: dict) -> Any:
+            o = c15.build_options(i["init"])
+            try:
+                OptionsValidator.validate_can_add_to_group(c15.to_py(i["ops"][0]["k"]), c15.to_py(i["ops"][0]["v"]), o.group, o.context)
+                return 0
+            except Exception as ex:  # noqa: BLE001
+                return c15.err_code(ex)
+        ty = "(ini_t * pykey * pyval) * option (option oerr)"
+        return {"inputs": cases, "real": real_val,
+                "term": lambda i, o: (f"(({c15.init_term(i['init'])}, {c15.key_term(c15.to_py(i['ops'][0]['k']))}, "
+                                      f"{c15.val_term(c15.to_py(i['ops'][0]['v']))}), {c15.err_term(o if isinstance(o, int) else 3)})"),
+                "type": ty, "req": c15.REQ,
+                "defs": c15.EXTRA_OPS + f"Definition chk (c : {ty}) := match c with ((i, k, v), o) => "
+                        "err_same (snd (o_add_group k v (mk_other i))) o end."}
+
+    def real_seq(i: dict) -> Any:
+        obs = c15.run_sequence(i)
+        return {"init_err": obs["init_err"], "errs": obs["errs"], "steps": obs["steps"]}
+    return {"inputs": cases, "real": real_seq,
+            "term": lambda i, o: c15.seq_term(i, o) if isinstance(o, dict) else c15.seq_term(i, {"init_err": 3, "steps": []}),
+            "type": "case_t", "req": c15.REQ, "defs": c15.EXTRA_OPS + "Definition chk := chk_ops."}
 
 
 # ---------------------------------------------------------------------------------------------------------------------
